@@ -640,3 +640,143 @@ Proof.
   - apply (read_mesh_points_proof a P).
   - unfold render_header. apply header_noise_ignored_proof; [discriminate|exact W].
 Qed.
+
+(* ================= triangle meshes without a texcoord list ================= *)
+Definition fprops := list (sty * sty * string).
+Definition lists_of (fps : fprops) : list prop := map (fun '(ct, lt, n) => PList ct lt n) fps.
+Definition rs_of (fps : fprops) : list (sty * sty) := map (fun '(ct, lt, _) => (ct, lt)) fps.
+
+Lemma list_props_lists fps : list_props (lists_of fps) = Ok (rs_of fps).
+Proof. induction fps as [|[[ct lt] n] fps IH]; [reflexivity|]. unfold lists_of, rs_of in *. cbn [map list_props]. rewrite IH. reflexivity. Qed.
+
+Lemma last_index_spec (f : prop -> bool) : forall ps k acc i, last_index f ps k acc = Some i ->
+  acc = Some i \/ ((k <= i)%nat /\ exists p, nth_error ps (i - k) = Some p /\ f p = true).
+Proof.
+  induction ps as [|p ps IH]; intros k acc i H; [left; exact H|]. cbn [last_index] in H.
+  destruct (IH _ _ _ H) as [E|[Hk [q [Nq Fq]]]].
+  - destruct (f p) eqn:Fp; [|left; exact E]. injection E as <-. right. split; [lia|]. exists p. rewrite Nat.sub_diag. split; [reflexivity|exact Fp].
+  - right. split; [lia|]. exists q. replace (i - k)%nat with (S (i - S k)) by lia. split; assumption.
+Qed.
+
+Lemma enc_face_bin_fps e (fps : fprops) f :
+  flat_map (fun '((ct, lt, _), ws) => enc_list_bin e ct lt ws) (combine fps f) = enc_face_bin e (rs_of fps) f.
+Proof.
+  revert f. induction fps as [|[[ct lt] n] fps IH]; intros [|ws f]; try reflexivity.
+  unfold enc_face_bin, rs_of in *. cbn [map combine flat_map]. rewrite IH. reflexivity.
+Qed.
+Lemma enc_face_ascii_fps (fps : fprops) f :
+  flat_map (fun '((_, lt, _), ws) => enc_list_ascii lt ws) (combine fps f) = enc_face_ascii (rs_of fps) f.
+Proof.
+  revert f. induction fps as [|[[ct lt] n] fps IH]; intros [|ws f]; try reflexivity.
+  unfold enc_face_ascii, rs_of in *. cbn [map combine flat_map]. rewrite IH. reflexivity.
+Qed.
+
+Definition trimesh_ok (a : absfile) (fps : fprops) (ip : nat) (ct lt : sty) : Prop :=
+  a_fprops a = Some fps /\ a_vprops a <> [] /\ NoDup (names (a_vprops a)) /\ supported (a_vprops a) /\
+  Forall (record_ok (a_vprops a)) (a_verts a) /\
+  Forall (raw_free (a_fmt a)) (spec_entries default_groups (a_vprops a)) /\
+  (* the face element: list properties with lower-case names, an index property, no texcoord property *)
+  Forall (fun p => lower (snd p) = snd p) fps /\
+  last_index is_indices (lists_of fps) 0 None = Some ip /\
+  last_index is_texcoord (lists_of fps) 0 None = None /\
+  nth_error (rs_of fps) ip = Some (ct, lt) /\ index_ty_ok lt = true /\
+  Forall (face_ok (rs_of fps) ip) (a_faces a) /\
+  (* index values are vertex numbers: below 2^31 (an ascii uint token is read unsigned) *)
+  Forall (fun f => Forall (fun w => w < 2 ^ 31) (nth ip f [])) (a_faces a).
+
+Lemma signed32_small w : w < 2 ^ 31 -> signed32 w = Z.of_N w.
+Proof. intros H. unfold signed32. replace (w <? 2 ^ 31) with true by (symmetry; apply N.ltb_lt; exact H). reflexivity. Qed.
+Lemma idx_ascii_small lt ws : Forall (fun w => w < 2 ^ 31) ws -> map (idx_ascii lt) ws = map signed32 ws.
+Proof.
+  intros F. apply map_ext_in. intros w Iw. rewrite Forall_forall in F. unfold idx_ascii.
+  destruct lt; try reflexivity; symmetry; apply signed32_small, F, Iw.
+Qed.
+
+Theorem read_body_tris_proof : forall a fps ip ct lt, trimesh_ok a fps ip ct lt ->
+  read_body default_groups true (header_of a) (enc_body a) = describe a /\ exists m, describe a = Ok m.
+Proof.
+  intros [fm ps verts fp faces] fps ip ct lt [Hfp [NE [ND [S [R [Raw [Low [Hip [Htp [Nip [Ity [Fok Small]]]]]]]]]]]].
+  cbn [a_fprops a_faces a_vprops a_verts a_fmt] in *. subst fp.
+  destruct (build_readers_agree fm default_groups ps ND S default_groups_wf Raw) as [bs [B F]].
+  destruct (rows_exist fm ps bs _ verts F R) as [rows M].
+  pose proof (attrs_agree fm ps bs verts rows M R bs _ F 0%nat [] (fun i b H => H)) as D.
+  rewrite <- describe_attrs_entries in D.
+  set (idx := flat_map (fun f => fan_tris (map signed32 (nth ip f []))) faces).
+  assert (Hlt : match nth_error fps ip with Some (_, l, _) => l | None => Int end = lt).
+  { unfold rs_of in Nip. rewrite nth_error_map in Nip. destruct (nth_error fps ip) as [[[c l] n]|]; [|discriminate].
+    cbn in Nip. congruence. }
+  assert (Hd : describe {| a_fmt := fm; a_vprops := ps; a_verts := verts; a_fprops := Some fps; a_faces := faces |} =
+               Ok {| m_topo := TTriangle; m_idx := idx; m_attrs := update_mesh bs 0 rows [] |}).
+  { unfold describe. cbn [a_vprops a_verts a_fprops a_faces]. rewrite D. cbn [rbind].
+    fold (lists_of fps). rewrite Hip, Htp. cbn [of_opt rbind]. reflexivity. }
+  split; [|eexists; exact Hd]. rewrite Hd.
+  unfold read_body, header_of. cbn [a_fmt a_vprops a_verts a_fprops a_faces h_elems h_fmt].
+  simpl (find_last_elem "vertex" _ None). simpl (find_last_elem "face" _ None).
+  cbn [of_opt rbind e_props e_count]. fold (scalars ps). rewrite all_scalar_scalars. cbn [negb].
+  replace (Z.of_nat (length verts) <? 0)%Z with false by (symmetry; apply Z.ltb_ge; lia).
+  rewrite !Nat2Z.id. unfold enc_body. cbn [a_fmt a_vprops a_verts a_faces fprops_of a_fprops].
+  assert (Fs : face_setup {| e_name := "face"; e_count := Z.of_nat (length faces); e_props := lists_of fps |} = Ok (rs_of fps, ip, None)).
+  { unfold face_setup. cbn [e_props]. rewrite list_props_lists. cbn [rbind]. rewrite Hip, Htp. reflexivity. }
+  fold (lists_of fps). 
+  destruct fm; cbn [is_bin] in B; rewrite B; cbn [rbind].
+  - (* ascii *)
+    destruct (vertex_i_is_record_i_ascii_proof ps verts bs
+                (map (fun f => flat_map (fun '((_, lt0, _), ws) => enc_list_ascii lt0 ws) (combine fps f)) faces) rows NE) as [Rd _].
+    { apply Forall_forall. intros rec Ir. rewrite Forall_forall in R. apply record_ok_length, R, Ir. }
+    { exact M. }
+    unfold encode_vertices_ascii in Rd. unfold scalars at 1. rewrite map_length. rewrite Rd. cbn [rbind].
+    rewrite Fs. cbn [rbind].
+    rewrite (map_ext _ (enc_face_ascii (rs_of fps)) (enc_face_ascii_fps fps)).
+    rewrite (quad_fan_ascii_proof (rs_of fps) ip ct lt faces fstate0).
+    + cbn [rbind length Nat.eqb negb andb]. f_equal. f_equal. unfold idx.
+      apply flat_map_ext_in'. intros f If. rewrite Forall_forall in Small. rewrite (idx_ascii_small lt _ (Small f If)). reflexivity.
+    + intros E. rewrite E in Nip. destruct ip; discriminate.
+    + exact Nip.
+    + exact Ity.
+    + apply Forall_forall. intros f If. rewrite Forall_forall in Fok. destruct (Fok f If) as [F2 L34].
+      split; [eapply Forall2_length'; exact F2|exact L34].
+  - destruct (vertex_i_is_record_i_bin_proof LEnd ps verts bs
+                (flat_map (fun f => flat_map (fun '((ct0, lt0, _), ws) => enc_list_bin LEnd ct0 lt0 ws) (combine fps f)) faces) rows R M) as [Rd _].
+    unfold encode_vertices_bin in Rd. rewrite Rd. cbn [rbind]. rewrite Fs. cbn [rbind].
+    rewrite (flat_map_ext_in' _ (enc_face_bin LEnd (rs_of fps)) faces (fun f _ => enc_face_bin_fps LEnd fps f)).
+    rewrite <- (app_nil_r (flat_map (enc_face_bin LEnd (rs_of fps)) faces)).
+    rewrite (quad_fan_bin_proof LEnd (rs_of fps) ip ct lt faces [] fstate0 Nip Ity Fok).
+    reflexivity.
+  - destruct (vertex_i_is_record_i_bin_proof BEnd ps verts bs
+                (flat_map (fun f => flat_map (fun '((ct0, lt0, _), ws) => enc_list_bin BEnd ct0 lt0 ws) (combine fps f)) faces) rows R M) as [Rd _].
+    unfold encode_vertices_bin in Rd. rewrite Rd. cbn [rbind]. rewrite Fs. cbn [rbind].
+    rewrite (flat_map_ext_in' _ (enc_face_bin BEnd (rs_of fps)) faces (fun f _ => enc_face_bin_fps BEnd fps f)).
+    rewrite <- (app_nil_r (flat_map (enc_face_bin BEnd (rs_of fps)) faces)).
+    rewrite (quad_fan_bin_proof BEnd (rs_of fps) ip ct lt faces [] fstate0 Nip Ity Fok).
+    reflexivity.
+Qed.
+
+Lemma header_of_tris_good a fps : a_fprops a = Some fps -> Forall (fun p => lower (snd p) = snd p) fps ->
+  Forall elem_good (h_elems (header_of a)).
+Proof.
+  intros H Low. unfold header_of. rewrite H. cbn [h_elems]. constructor; [|constructor; [|constructor]].
+  - unfold elem_good. cbn [e_name e_count e_props]. repeat split; [lia|].
+    apply Forall_forall. intros p Ip. apply in_map_iff in Ip. destruct Ip as [[t n] [<- _]]. exact I.
+  - unfold elem_good. cbn [e_name e_count e_props]. repeat split; [lia|].
+    apply Forall_forall. intros p Ip. apply in_map_iff in Ip. destruct Ip as [[[c l] n] [<- In']].
+    rewrite Forall_forall in Low. apply (Low _ In').
+Qed.
+
+Theorem read_mesh_tris_proof : forall a fps ip ct lt, trimesh_ok a fps ip ct lt ->
+  read_mesh (encode a) = describe a /\ exists m, describe a = Ok m.
+Proof.
+  intros a fps ip ct lt T. unfold read_mesh, encode. cbn [pf_header pf_body].
+  rewrite parse_render_header_proof; [|eapply header_of_tris_good; apply T|reflexivity].
+  cbn [rbind]. eapply read_body_tris_proof, T.
+Qed.
+
+Theorem read_mesh_tris_noisy_proof : forall a fps ip ct lt noisy, trimesh_ok a fps ip ct lt ->
+  with_noise (header_body (header_of a)) noisy ->
+  read_mesh {| pf_header := ["ply"%string] :: ["format"%string; fmt_name (a_fmt a); "1.0"%string] :: noisy; pf_body := enc_body a |}
+  = describe a.
+Proof.
+  intros a fps ip ct lt noisy T W.
+  rewrite (read_mesh_ext _ (render_header (header_of a)) (enc_body a)).
+  - apply (read_mesh_tris_proof a fps ip ct lt T).
+  - unfold render_header. apply header_noise_ignored_proof; [discriminate|exact W].
+Qed.
